@@ -37,7 +37,9 @@ K_NAME = ('K_fortran: (a) FSolve.w_evaluate/w_solve_t/w_solve over FSem.f_eval v
           'the regrouped tree that (a) evaluates (text -> tree inside the model, per case)')
 RULE = ('C01-grammar programs of the common subset rendered from random syntax trees (+ - * / **, unary minus, parentheses, exp/log/max/min/abs, '
         'parameters, errors, lags/leads, integer and decimal literals, long sums that need continuation lines, up to 40 variables, blank-free runs at '
-        'the wrap width 100/101+), 9 program families (lin tree trans lit powi bad long blow wrap) x random finite data (plus signed zeros, huge/tiny '
+        'the wrap width 100/101+, every sign-placing production of the Fortran grammar), program families lin tree trans lit powi bad long blow '
+        'wrap sign mixed x non-default check lists x histories (another Fortran-backed model with the same check names at other rows solved first in '
+        'the same process) x copies of the instance x random finite data (plus signed zeros, huge/tiny '
         'values, pre-existing NaN/inf; the blow family overflows / divides by zero DURING the iteration so that template codes 21/22 and the '
         'ignore/replace paths are exercised) x the C02 option lattice (min_iter, max_iter incl. 0 and min>max, tol incl. 0, offset in/out of span, '
         'failures, errors incl. invalid, catch_first_error) x entry points evaluate/solve_t/solve x t in both spellings, feasible and not. A run case '
@@ -47,13 +49,16 @@ TRUSTED = ['harness/fortran_ctypes.py (gfortran -O2 -shared -fPIC + ctypes stand
            'gfortran 12 (parsing, constant folding, code generation) and glibc libm: observed through K only — the claim is PARTIAL',
            'numpy scalar arithmetic and CPython evaluation of the generated _evaluate (observed through K only)',
            'exp/log/pow oracle tables recorded by the harness (numpy for the Python model, glibc via ctypes for the Fortran model)',
-           'OCaml extraction of FText.v (ExtrOcamlBasic + ExtrOcamlString) and the 60-line driver written by this module']
+           'OCaml extraction of FText.v / FParse.v / FWrap.v (ExtrOcamlBasic + ExtrOcamlString) and the ~100-line driver written by this module '
+           '(incl. a reader of prefix-notation trees: the same tree is sent to the driver and, as a Coq term, to the float part of K)']
 ASSUMPTIONS = ['all model variables are float64 series; integers passed to the engine fit a C int',
                'integer literals below 2**31, decimal literals without exponent part (the fsic parser rejects 1e-3), no literal-only '
                'subexpression that overflows or divides by zero',
-               'textwrap.wrap is an oracle of the text model (its output lines are an input of FText.block); checked per case: the lines, joined '
-               'by single blanks, are the rewritten code up to runs of blanks (i.e. wrap broke at blanks only) — except in the kept finding class '
-               '(a blank-free run longer than the width), where only equality up to blanks is asked',
+               'textwrap.wrap is modelled (FWrap.v, CPython 3.12 defaults) for texts whose only whitespace is the blank and in which the '
+               'hyphen rule of the chunk splitter never applies (generated Fortran code); K compares equation_block / array_def_block — rewrite, '
+               'wrap, continuation join, indent — with the text of the generated module for every equation and index array',
+               'FParse.v reads the generated statement by the expression grammar of gfortran (matchexp.c with the GNU unary-minus extension); '
+               'that this IS how gfortran groups the operators is observed through the float part of K (bit-equal values), not proved',
                'the instance-level lags/leads/endogenous equal the class-level ones generated from the symbols',
                'theorems: IEEE sign symmetry (-x)*y = -(x*y), (-x)/y = -(x/y) is a hypothesis (Fortran reads -a*b as -(a*b)); exp/log/** are '
                'oracles shared by both evaluators; the tie between the generated Fortran TEXT and the syntax tree FSem.f_eval interprets '
@@ -580,10 +585,40 @@ def gen(rng, tier):
     for t, mx, mn, off, fl, er in [(1, 0, 0, 0, 'raise', 'raise'), (1, 0, 0, 0, 'ignore', 'raise'), (0, 3, 0, 0, 'raise', 'raise'), (-4, 3, 0, 0, 'raise', 'raise'),
                                    (1, 1, 0, 0, 'raise', 'raise'), (1, 2, 2, 0, 'ignore', 'raise'), (1, 3, 4, 0, 'raise', 'raise'), (1, 5, 0, -2, 'raise', 'raise'),
                                    (3, 5, 0, 1, 'raise', 'raise'), (-1, 5, 0, -1, 'raise', 'skip'), (2, 100, 0, -1, 'raise', 'replace'), (1, 5, 0, 0, 'raise', 'bogus')]:
-        c = {'kind': 'run', 'prog': p0, 'script': script_of(p0), 'n': 4, 'entry': 'solve_t', 't': t,
+        c = {'kind': 'run', 'keep': True, 'prog': p0, 'script': script_of(p0), 'n': 4, 'entry': 'solve_t', 't': t,
              'data': {'Y': [lib.fhex(x) for x in (1.0, 0.0, 0.0, 0.0)], 'X': [lib.fhex(1.0)] * 4, 'a': [lib.fhex(0.5)] * 4},
              'opts': dict(min_iter=mn, max_iter=mx, tol=lib.fhex(TOL), offset=off, failures=fl, errors=er, catch_first_error=True)}
         cases.append(c)
+    # the step between two passes hits tol EXACTLY (dyadic data: Y = 0.5 * Y + X, X = 1 from Y = 0: steps 1, .5, .25, .125 ...): `<` is strict
+    # in both engines; and min_iter equal to / one above the pass at which the iteration would stop
+    dy = {'eqs': [['Y', ['b', '+', ['b', '*', ['d', '0.5'], ['v', 'Y', 0]], ['v', 'X', 0]]]], 'family': 'lit', 'style': ' '}
+    for tl in (0.25, 0.125, 0.0, 2.0 ** -52):
+        for mn, mx in ((0, 60), (3, 60), (4, 60), (5, 5), (4, 3)):
+            for entry in ('solve_t', 'solve'):
+                c = {'kind': 'run', 'keep': True, 'prog': dy, 'script': script_of(dy), 'n': 3, 'entry': entry,
+                     'data': {'Y': [lib.fhex(0.0)] * 3, 'X': [lib.fhex(1.0)] * 3},
+                     'opts': dict(min_iter=mn, max_iter=mx, tol=lib.fhex(tl), offset=0, failures='ignore', errors='raise', catch_first_error=True)}
+                if entry == 'solve':
+                    c['start'], c['end'] = None, None
+                else:
+                    c['t'] = -2
+                cases.append(c)
+    # two models in one process with the same non-default check list at different rows
+    pA, pB = fixed[0], fixed[2]          # Y = {a} * Y[-1] + X  (Y is row 0)   /   Y = C + G ; C = {c1} * Y  (order of NAMES decides)
+    for main, other in ((pA, pB), (pB, pA)):
+        def mk(pr):
+            lg, ld = lags_leads(pr)
+            return {'kind': 'run', 'prog': pr, 'script': script_of(pr), 'n': 4, 'entry': 'solve', 'start': None, 'end': None, 'check': ['Y'],
+                    'data': {nm: [lib.fhex(0.5 if role == 'par' else 1.0)] * 4 for nm, role in names_in(pr).items()},
+                    'opts': dict(min_iter=0, max_iter=100, tol=lib.fhex(TOL), offset=0, failures='raise', errors='raise', catch_first_error=True)}
+        c = mk(main)
+        c['prelude'] = [mk(other)]
+        cases.append(c)
+        c2 = copy.deepcopy(c)
+        c2['entry'] = 'solve_t'
+        c2['t'] = 2
+        c2.pop('start'); c2.pop('end')
+        cases.append(c2)
     # pre-existing NaN / inf in the period being solved that the offset copy overwrites (the copy must come BEFORE the
     # pre-existing-value test in both engines), and one it does not overwrite (an exogenous variable / the offset period itself)
     nanh, one = lib.fhex(float('nan')), lib.fhex(1.0)
@@ -592,7 +627,7 @@ def gen(rng, tier):
                                          ('solve', 'raise', -1, [nanh, one, one, one], [one] * 4), ('solve', 'raise', 1, [one, nanh, one, one], [one] * 4),
                                          ('solve', 'raise', -1, [one, one, one, one], [one, nanh, one, one]), ('solve', 'replace', -1, [one, nanh, nanh, one], [one] * 4),
                                          ('solve', 'raise', 0, [one, nanh, one, one], [one] * 4), ('solve', 'ignore', -2, [one, one, nanh, nanh], [one] * 4)]:
-        c = {'kind': 'run', 'prog': p0, 'script': script_of(p0), 'n': 4, 'entry': entry,
+        c = {'kind': 'run', 'keep': True, 'prog': p0, 'script': script_of(p0), 'n': 4, 'entry': entry,
              'data': {'Y': ydata, 'X': xdata, 'a': [lib.fhex(0.5)] * 4},
              'opts': dict(min_iter=0, max_iter=60, tol=lib.fhex(TOL), offset=off, failures='ignore', errors=er, catch_first_error=True)}
         if entry == 'solve':
@@ -616,6 +651,42 @@ def gen(rng, tier):
         pr = gen_program(rng, fam)
         cases.append({'kind': 'text', 'prog': pr, 'script': script_of(pr)})
         cases += gen_runs(rng, pr, per if fam != 'long' else max(8, per // 4))
+    return with_histories(rng, cases)
+
+
+def with_histories(rng, cases):
+    """Non-default `check` lists and histories: some run cases get a list of convergence variables of their own (a subset / another
+    order / exogenous names), and some are preceded, IN THE SAME PROCESS, by the solve of a DIFFERENT Fortran-backed model that uses the
+    same check names at other rows."""
+    runs = [c for c in cases if c['kind'] == 'run' and c['entry'] != 'evaluate' and c['prog']['family'] not in ('long', 'wrap', 'bad', 'mixed')
+            and not c.get('keep') and 'check' not in c]
+    by_script = {}
+    for c in runs:
+        by_script.setdefault(c['script'], []).append(c)
+    scripts = sorted(by_script)
+    for c in runs:
+        q = rng.random()
+        if q >= 0.2:
+            continue
+        roles = names_in(c['prog'])
+        endo = [nm for nm, r_ in roles.items() if r_ == 'endo']
+        if q < 0.08:
+            # a check list of its own: a non-empty selection of variables, endogenous first, possibly with an exogenous one
+            pool = endo + [nm for nm, r_ in sorted(roles.items()) if r_ == 'exo'][:1]
+            k = rng.randint(1, len(pool))
+            c['check'] = rng.sample(pool, k)
+            continue
+        # a history: another model with a common variable name, solved first with the same check list
+        donors = [s_ for s_ in scripts if s_ != c['script'] and set(names_in(by_script[s_][0]['prog'])) & set(endo)]
+        if not donors:
+            continue
+        d = copy.deepcopy(rng.choice(by_script[rng.choice(donors)]))
+        common = sorted(set(names_in(d['prog'])) & set(endo))
+        chk = [rng.choice(common)]
+        d.pop('prelude', None)
+        d['check'] = chk
+        c['check'] = chk
+        c['prelude'] = [d]
     return cases
 
 
@@ -709,6 +780,8 @@ def _instantiate(cls, case):
     for nm, row in case['data'].items():
         m.__dict__['_' + nm][:] = [lib.unhex(x) for x in row]
     m.__dict__['_snaps'] = []
+    if case.get('check') is not None:
+        m.check = list(case['check'])          # a non-default list of convergence variables (any variable names, any order)
     return m, span
 
 
@@ -903,6 +976,13 @@ def impl(case):
     obs['tabs'] = tabs
     obs['f'] = None
     if b.F is not None:
+        # HISTORY: other Fortran-backed models solved earlier in this very process (same check names, other variable orders) must not
+        # influence this run (no state shared between model classes)
+        for pl in case.get('prelude', []):
+            bp = build(pl['script'])
+            if bp.F is not None:
+                mp, spanp = _instantiate(bp.F, pl)
+                _call(mp, spanp, pl)
         mf, spanf = _instantiate(b.F, case)
         outf = _call(mf, spanf, case)
         obs['f'] = _observe(mf, names, outf)
@@ -1582,6 +1662,11 @@ def shrink_candidates(case):
             c = copy.deepcopy(case)
             c['opts'][k] = v
             yield c
+    for k in ('prelude', 'check'):
+        if k in case:
+            c = copy.deepcopy(case)
+            del c[k]
+            yield c
     if o['max_iter'] > 1:
         c = copy.deepcopy(case)
         c['opts']['max_iter'] = o['max_iter'] // 2
@@ -1602,7 +1687,7 @@ def shrink_candidates(case):
             c['script'] = script_of(c['prog'])
             have = names_in(c['prog'])
             c['data'] = {k: v for k, v in case['data'].items() if k in have}
-            if set(have) <= set(case['data']):
+            if set(have) <= set(case['data']) and set(case.get('check') or []) <= set(have):
                 yield c
     for nm, row in case['data'].items():
         simple = [lib.fhex(1.0)] * len(row)
